@@ -557,6 +557,9 @@ def scenarios(tier, seed):
     if q:
         # more than six significant digits after the first rounding: the double-rounding case of the table renderer
         S.append(Scenario("compact/v1e4/e1e-3/value", sc_compact, family="compact/value", params=dict(kv=4, ke=-3, which="value")))
+        # uncertainties of 100 and more (rounding to tens / hundreds must not happen silently)
+        for which in ("value", "error"):
+            S.append(Scenario("compact/v1e4/e1e2/%s" % which, sc_compact, family="compact/" + which, params=dict(kv=4, ke=2, which=which)))
     for minimizer in ("scipy", "iminuit"):
         for fixed in (False, True):
             for asym in (False, True):
